@@ -377,6 +377,44 @@ def check_cat_states(out):
     return n_ev
 
 
+def check_bosonic_preparations_physical(out):
+    """C07, non-Gaussian preparations of the bosonic simulator: the prepared operator is a STATE - Hermitian (real Wigner function:
+    weights and means closed under complex conjugation), unit trace, <beta|rho|beta> real in [0, 1], real non-negative photon
+    number - for cat states of even, odd and FRACTIONAL parity in both representations, Fock states and GKP states"""
+    n_ev = 0
+    xs, ps = np.linspace(-2.5, 2.5, 7), np.linspace(-2.0, 3.0, 6)
+    preps = [(f"Catstate({a}, {phi}, p={p_}{', ' + rep if rep else ''})", (lambda a=a, phi=phi, p_=p_, rep=rep: ops.Catstate(a, phi, p_) if rep is None else ops.Catstate(a, phi, p_, representation=rep)))
+             for (a, phi, p_) in ((0.8, 0.0, 0.0), (1.0, 0.3, 1.0), (0.8, 0.0, 0.5), (1.0, 0.3, 0.25), (1.3, -0.9, 1.6)) for rep in (None, "real")]
+    preps += [("Fock(1)", lambda: ops.Fock(1)), ("Fock(2)", lambda: ops.Fock(2)), ("GKP(epsilon=0.35)", lambda: ops.GKP(epsilon=0.35)),
+              ("GKP(state=[pi/2, 0], epsilon=0.4)", lambda: ops.GKP(state=[np.pi / 2, 0.0], epsilon=0.4))]
+    for label, mk in preps:
+        n_ev += 1
+        prog = sf.Program(1)
+        with prog.context as q:
+            mk() | q[0]
+        try:
+            st = sf.Engine("bosonic").run(prog).state
+            W = np.asarray(st.wigner(0, xs, ps))
+            fid = [complex(st.fidelity_coherent([b])) for b in (0.0, 0.4 + 0.3j, -0.7j)]
+            tr = complex(np.sum(st.weights()))
+            nbar = st.mean_photon(0)[0]
+        except Exception as e:
+            out.append(f"bosonic {label}: a query of the prepared state raised {type(e).__name__}: {str(e)[:100]} (not a physical state?)")
+            continue
+        msgs = []
+        if np.iscomplexobj(W) and abs(W.imag).max() > 1e-9:
+            msgs.append(f"the Wigner function is complex (max imaginary part {abs(W.imag).max():.3g}): the operator is not Hermitian")
+        if abs(tr - 1) > 1e-9:
+            msgs.append(f"trace = {tr:.6f}")
+        if any(abs(f.imag) > 1e-9 or f.real < -1e-9 or f.real > 1 + 1e-9 for f in fid):
+            msgs.append(f"<beta|rho|beta> = {np.round(fid, 5).tolist()} is not a probability")
+        if abs(np.imag(nbar)) > 1e-9 or np.real(nbar) < -1e-9:
+            msgs.append(f"mean photon number {nbar}")
+        if msgs:
+            out.append(f"bosonic {label} is not a physical state: " + "; ".join(msgs))
+    return n_ev
+
+
 def cases():
     C = []
     for n in (2, 3):
@@ -425,6 +463,7 @@ if __name__ == "__main__":
             extra = []
             EVAL[0] += check_fock_operator_invariants(extra)
             EVAL[0] += check_fock_top_level(extra)
+            EVAL[0] += check_bosonic_preparations_physical(extra)
             for msg in extra:
                 bad(msg)
         with mp.Pool(min(14, os.cpu_count() or 2)) as pool:
